@@ -21,6 +21,9 @@ COMMON_NOTE = ("Trusted: the harness's dense long-double reference, the choice-s
                "Exploration only: the property is shown to hold on the generated cases (counts in the evidence file), nothing is proved.")
 
 INFO = {
+    "C19": dict(level="exploration", assumptions=COMMON_ASSUME + ["uninitialised reads are detected by differential runs under three fill patterns (no usable MSan under a C++ harness); a read that changes neither an output nor control flow is not detected"], note=COMMON_NOTE,
+                technique="property-based testing (rapidcheck) of API lifecycles under ASan+UBSan with an allocation ledger (leak / double free) and garbage-fill differential runs; coverage-guided libFuzzer campaign on the same target in the thorough tier",
+                text="Generated lifecycles ending in every exit class run under sanitizers with every library allocation tracked; each lifecycle is repeated under three memory fill patterns and must produce bit-identical outputs."),
     "C06": dict(level="exploration", assumptions=COMMON_ASSUME + ["preconditions of each Fact value taken from the routine header and EXAMPLE/?linsolx{1,2,3}.c"], note=COMMON_NOTE,
                 technique="stateful property-based testing (rapidcheck): generated call histories over one sparsity pattern with an invariant (C02 + C03 + C05 oracles, pivot-reuse rule, factor immutability under FACTORED) checked after every step; the whole history shrinks as one value",
                 text="Whole histories over Fact in {DOFACT, SamePattern, SamePattern_SameRowPerm, FACTORED} are generated with value changes designed to defeat the remembered pivots; every step is held to the guarantees of a fresh factorization."),
@@ -76,7 +79,7 @@ INFO = {
 
 NOT_APPLICABLE = {}
 
-PROPS = ["C01", "C02", "C03", "C04", "C05", "C06", "C07", "C08", "C10", "C11", "C12", "C13", "C14", "C16", "C17", "C18", "C20"]
+PROPS = ["C01", "C02", "C03", "C04", "C05", "C06", "C07", "C08", "C10", "C11", "C12", "C13", "C14", "C16", "C17", "C18", "C19", "C20"]
 
 
 def all_props():
